@@ -921,7 +921,7 @@ def ma3(ctx):
     ctx.check(must, 'clear-shrinks', c.span, 'RollingBuffer::clear = clear + shrink_to_fit', 'RollingBuffer::clear no longer releases the allocation (memory stays allocated after a queue is emptied)')
 
 
-@rule('DU1', ['C06'], floor=1, template='const-agreement')
+@rule('DU1', ['C06', 'C14'], floor=1, template='const-agreement')
 def du1(ctx):
     """disk_used_bytes = tracked files x FILE_NUM_BYTES, the same constant files are sized with."""
     n = 0
@@ -942,6 +942,20 @@ def du1(ctx):
             back = fl.backward(set(fl.op_nodes(other)))
             from_count = any((c.path.endswith('FileTracker::count') or (c.name.endswith('::len') and 'BTreeSet' in c.name)) and any(x in back for x in fl.call_result_nodes(c)) for c in b.calls)
             ctx.check(named.endswith('FILE_NUM_BYTES') and from_count, '%s:size' % b.path, b.span, 'size = files.count() * FILE_NUM_BYTES', 'disk usage is not (number of tracked files x FILE_NUM_BYTES)')
+            # ... and nothing else: the figure is the product itself (all tracked files, each at its full size). A
+            # term for "what was really written to the last file" makes the figure depend on the write cursor or, worse,
+            # on the flush state of the BufWriter, i.e. on the persist policy
+            prod = fl.forward({('l', m['place']['l'])}) if not m['place']['p'] else set()
+            back0 = fl.backward({('l', 0)})
+            extra = []
+            for c in b.calls:
+                if any(x in back0 for x in fl.call_result_nodes(c)) and not (c.path.endswith('FileTracker::count') or (c.name.endswith('::len') and 'BTreeSet' in c.name)) \
+                        and not any(x in fl.backward(set(fl.op_nodes(other))) for x in fl.call_result_nodes(c)):
+                    extra.append(method_name(c.name))
+            mems = sorted(x[1] for x in back0 if x[0] == 'm' and x[1] in ('RollingWriter.offset', 'RollingWriter.file', 'RollingWriter.file_number'))
+            count_adj = [st2 for bi2, blk2 in enumerate(b.blocks) if b.live[bi2] for st2 in blk2['stmts'] if st2['k'] == 'assign' and st2['rv']['k'] == 'binop' and re.match(r'^(Sub|Add)', st2['rv']['op']) and ('l', st2['place']['l']) in back0]
+            ctx.check(not extra and not mems and not count_adj, '%s:size-is-the-product' % b.path, b.span, 'the disk figure is count x FILE_NUM_BYTES and nothing else',
+                      'the disk figure is not just (tracked files x FILE_NUM_BYTES): it also depends on %s -- disk_used_bytes would differ from the total size of the WAL files, and with the flush state of the writer' % (extra or mems or 'an adjusted count'))
     if n == 0:
         ctx.missing('size-fn', 'no RollingWriter size function found')
 
@@ -1028,6 +1042,55 @@ def ma5(ctx):
     if rb and dr:
         c = [cs.point for cs in rb[0].calls if re.search(r'VecDeque::<u8>::drain', cs.name)]
         must_dr = not any(e in rb[0].reach([rb[0].entry], avoid=c) for e in rb[0].return_points())
+    # ... and the payload is cut exactly where the first RETAINED record starts: the amount handed to the ring
+    # buffer is `record_metas[k].start_offset` read with the same k the metas are drained up to (the start of the
+    # last EVICTED record, or any other derived amount, leaves evicted bytes at the head of the buffer for ever)
+    def ids_of(op):
+        ol = op_local(op)
+        if ol is None:
+            return {('const', op_const_bits(op))}
+        out_ = set()
+        for o in t.trace_local(ol):
+            if o[0] == 'call':
+                out_.add(('call', o[1].point))
+            elif o[0] in ('rv', 'place', 'const'):
+                out_.add((o[0], o[1]))
+            elif o[0] == 'param':
+                out_.add(('param', o[1]))
+        return out_
+    cut_ok = None
+    dr_calls = [cs for cs in t.calls if re.search(r'Vec::<mem::queue::RecordMeta>::drain', cs.name)]
+    bf_calls = [cs for cs in t.calls if cs.node is not None and ctx.f.bodies[cs.node].path == 'mem::rolling_buffer::RollingBuffer::truncate_head']
+    if dr_calls and bf_calls:
+        cut_ok = False
+        def range_end(cs):
+            rl = cs.arg_local(1) if len(cs.args) > 1 else None
+            for o in (t.trace_local(rl) if rl is not None else []):
+                if o[0] == 'rv' and o[2]['k'] == 'agg' and re.search(r'ops::RangeTo$', o[2].get('adt') or '') and o[2].get('ops'):
+                    return o[2]['ops'][0]
+            return None
+        kd = range_end(dr_calls[0])
+        kb = range_end(bf_calls[0])
+        if kd is not None and kb is not None:
+            k_ids = ids_of(kd)
+            bl = op_local(kb)
+            for o in (t.trace_local(bl) if bl is not None else []):
+                # a read `metas[i].start_offset` (Index call result, then the field) or `(*metas_ptr)[i].start_offset`
+                if o[0] == 'place':
+                    fl_ = [e for e in o[2]['p'] if e['k'] == 'field']
+                    if fl_ and fl_[-1].get('name') == 'start_offset':
+                        idx_ids = set()
+                        for e in o[2]['p']:
+                            if e['k'] == 'index':
+                                idx_ids |= ids_of({'k': 'copy', 'place': {'l': e['local'], 'p': []}})
+                        for o2 in t.trace_local(o[2]['l']):
+                            if o2[0] == 'call' and re.search(r'Index<usize>>::index$|::index$', o2[1].name) and len(o2[1].args) > 1:
+                                idx_ids |= ids_of(o2[1].args[1])
+                        if (idx_ids & k_ids) and t.dominates(o[1], dr_calls[0].point):
+                            cut_ok = True
+    if cut_ok is not None:
+        ctx.check(cut_ok, 'truncate:cut-at-first-retained', t.span, 'the payload buffer is cut at the start offset of the first retained record (read before the drain, same index)',
+                  'the amount cut from the payload buffer is not the start offset of the first retained record: bytes of evicted records stay at the head of the buffer and keep being counted as used')
     ctx.check(paired and must_dr, 'truncate:metas-and-payload', t.span, 'partial truncation drains the metas and the payload bytes together',
               'a partial truncation can drop record metas without dropping their payload bytes (or vice versa): memory_used would not drop by what was evicted')
 
